@@ -263,12 +263,24 @@ class TranslateNode(Node, TranslatableTag):
         if autoescape:
             message_text = Markup(message_text)
 
-        _vars = {
-            k: to_liquid_string(context.resolve(k), autoescape=autoescape)
-            for k in self.re_vars.findall(message_text)
-        }
+        # Variables are resolved as the `%` operator asks for them, so the placeholders
+        # replaced are exactly those printf-style formatting finds in the message text.
+        return message_text % _MessageVars(context, autoescape=autoescape)
 
-        return message_text % _vars
+
+class _MessageVars:
+    """Message variables resolved from a render context, one `%(name)s` at a time."""
+
+    __slots__ = ("context", "autoescape")
+
+    def __init__(self, context: RenderContext, *, autoescape: bool) -> None:
+        self.context = context
+        self.autoescape = autoescape
+
+    def __getitem__(self, name: str) -> str:
+        return to_liquid_string(
+            self.context.resolve(name), autoescape=self.autoescape
+        )
 
 
 class TranslateTag(Tag):
@@ -369,6 +381,12 @@ class TranslateTag(Tag):
                 if not isinstance(var, str):
                     raise TranslationSyntaxError(
                         f"expected a translation variable, found '{expr}'",
+                        token=node.token,
+                    )
+
+                if "(" in var or ")" in var:
+                    raise TranslationSyntaxError(
+                        f"unexpected parenthesis in translation variable '{expr}'",
                         token=node.token,
                     )
 
